@@ -17,6 +17,12 @@ CHECKS = {
  "C07": dict(cat="model_checking", tech="explicit-state BFS; decode/re-encode identity + content + header-flag oracle on every register produced",
    text="Every register produced by a commit after every transition of the spaces is decoded and re-encoded (byte identity), the decoded slab is compared field-by-field and element-by-element with the in-memory slab (compact maps excepted), and root/has-pointers/size-limit flags are compared with the harness's own reading of the content.",
    note="Pointer flag of index slabs is not asserted (the property speaks of elements).", ref="§5 C07"),
+ "C10": dict(cat="model_checking", tech="explicit-state BFS to closure over a nested-container universe driven through live handles, with commit/reopen/cache-drop events",
+   text="Closure over a root array/map with nested arrays/maps (plain, wrapped, up to 3 levels): every child mutator through handles obtained on insertion, by lookup and by mutable iteration, interleaved with parent restructuring and commit/reopen/drop-cache events; after every transition the content read through the root equals the nested model, the in-repo verifiers accept the root, inlined <=> single slab fitting the parent's limit (computed independently), value IDs are stable and commit+reopen reproduces the model.",
+   note="One live handle per attached container, enforced transitively (replacing a handle abandons handles of its descendants); two simultaneously used handles of the same container are outside the claim (DESIGN §9).", ref="§5 C10"),
+ "C11": dict(cat="model_checking", tech="explicit-state BFS to closure over the nested universe with detach/overwrite/re-attach/dispose and stale handles",
+   text="Closure over the nested universe extended with detach-by-remove, detach-by-overwrite, re-attach elsewhere and dispose; handles obtained before detachment are used afterwards while the former parent keeps changing; after every transition the former parent equals its model (content, verifier, persisted form after commit+reopen), the detached child is a standalone value with unchanged value ID reloadable by slab ID, and storage IDs == reachable IDs with detached containers counted as roots.",
+   note="Children detached by PopIterate of their parent are destroyed by contract and not reused; a container is never attached twice.", ref="§5 C11"),
  "C09": dict(cat="model_checking", tech="explicit-state BFS; independent reachability oracle (storage IDs == reachable IDs) before and after commit",
    text="With the harness disposing of every value handed back, after every transition (and again after commit) the slab IDs held by write set + ledger must equal the IDs reachable from live roots by an independent traversal, each referenced once, one owner per tree; alphabets are biased to auxiliary slabs (externalised values/keys, inline<->standalone children, bulk pops).",
    note="CheckStorageHealth is used only as a second opinion (C20 decides its trustworthiness).", ref="§5 C09"),
